@@ -9,8 +9,8 @@
    (vplib/props/c12.py), not by these theorems; panic sites outside the modelled functions are counted, not proved. *)
 From Coq Require Import List ZArith NArith Bool Arith.
 From PV Require Import Lib.ListX Model.Checked Model.RangeArith Model.WidthArith Model.ReviewedSites Model.Span
-  Model.CheckedNest Model.SitesBaseline Model.Closure
-  Proofs.ClosureProofs Gen.GenUnpack
+  Model.CheckedNest Model.SitesBaseline Model.Closure Model.ParseRetry
+  Proofs.ClosureProofs Proofs.ParseRetryProofs Gen.GenUnpack
   Proofs.CheckedProofs Proofs.RangeArithProofs Proofs.WidthArithProofs Proofs.ReviewedSitesProofs Proofs.SpanProofs
   Proofs.CheckedNestProofs Gen.GenSites.
 Import ListNotations.
@@ -289,6 +289,26 @@ Theorem c12_unpack_exact_partial : forall (arity : str -> option nat) fuel e,
 Proof. exact lambda_free_no_bad_cast. Qed.
 Print Assumptions c12_unpack_exact_partial.
 
+(* ------------------------------------------------------------------ parse time on nested named arguments *)
+(* Full statement (FALSE, finding C12-H3): the number of nested_expr invocations is linear in the input length.
+   Model/ParseRetry.v is an ordered-choice parser without memoisation (chumsky's semantics) for the fragment
+   `nested_expr = lambda_func(expr).or(func_call(expr))`, `param = ident [: expr]`, `named_arg = ident : expr`.
+   On the VALID input  f x:(f x:( .. 1 .. ))  with n nested named arguments (4n + 1 + n tokens) it succeeds after exactly
+   calls n invocations of nested_expr, calls (n+1) = 2 * calls n + 1: lambda_func reads `x:( .. )` as a parameter with a
+   default value, parsing the whole inner argument, fails at the missing `->`, and func_call parses it again. *)
+Theorem c12_parse_nested_named_cost : forall n fuel r, closes r -> 8 * n + 8 <= fuel ->
+  p fuel NNested (nested_named n ++ r) = (Some r, calls n).
+Proof. exact nested_cost. Qed.
+Print Assumptions c12_parse_nested_named_cost.
+
+Theorem c12_parse_calls_recurrence : forall n, calls (S n) = 2 * calls n + 1 /\ calls n + 1 = 2 ^ (n + 1).
+Proof. intro n. split; [reflexivity | apply calls_pow]. Qed.
+Print Assumptions c12_parse_calls_recurrence.
+
+Theorem c12_parse_linear_refuted : forall a b, exists n, a * n + b < calls n.
+Proof. exact calls_not_linear. Qed.
+Print Assumptions c12_parse_linear_refuted.
+
 (* ------------------------------------------------------------------ nesting is unbounded in the input size *)
 Theorem c12_unbounded_depth : forall d, length (nest d) = 2 * d + 1 /\ bracket_depth (nest d) = d.
 Proof. exact unbounded_depth_lemma. Qed.
@@ -341,3 +361,6 @@ Example c12_ex_unpack_direct :
   lambda_free (arity_of GenUnpack.arms) (App (App (Fn 0 2 [] (Internal [116;97;107;101]%N)) [Val]) [Val]) = true /\
   lambda_free (arity_of GenUnpack.arms) (App (Fn 0 0 [] (Body (App (Fn 0 2 [] (Internal [116;97;107;101]%N)) [Val]))) [Val]) = false.
 Proof. repeat split; vm_compute; reflexivity. Qed.
+(* `f x:(f x:(1))`: 7 invocations of nested_expr for 11 tokens; the parser does accept the input *)
+Example c12_ex_parse_retry : p 40 NNested (nested_named 2) = (Some [], 7) /\ length (nested_named 2) = 11.
+Proof. split; vm_compute; reflexivity. Qed.
